@@ -376,6 +376,14 @@ func (e *c10Env) runAPI(c *c10Case) map[string]interface{} {
 		case "Next":
 			k, v := L.Next(a[0].(*lua.LTable), a[1])
 			res = append(res, e.tok(k), e.tok(v))
+		case "ForEachWalk":
+			n := 0
+			L.ForEach(a[0].(*lua.LTable), func(k, v lua.LValue) {
+				if n < 1000 {
+					res = append(res, []interface{}{e.tok(k), e.tok(v)})
+				}
+				n++
+			})
 		case "NextWalk":
 			tb := a[0].(*lua.LTable)
 			n := 0
@@ -477,6 +485,8 @@ func (e *c10Env) runLua(c *c10Case) map[string]interface{} {
 		src, args = "return function(a) return tostring(a) end", a
 	case "Next":
 		src, args, nret = "return function(a,b) return next(a,b) end", a, 2
+	case "ForEachWalk":
+		src, nret = "return function(a,f) local n=0 for k,v in pairs(a) do if n<1000 then f(k,v) end n=n+1 if n>2000 then break end end end", 0
 	case "NextWalk":
 		src, nret = "return function(a,f) local n=0 local k,v=next(a) while k~=nil and n<1000 do f(k,v) n=n+1 k,v=next(a,k) end end", 0
 	default:
@@ -484,7 +494,7 @@ func (e *c10Env) runLua(c *c10Case) map[string]interface{} {
 	}
 	f := e.luaFunc(src)
 	res := []interface{}{}
-	if c.Op == "NextWalk" {
+	if c.Op == "NextWalk" || c.Op == "ForEachWalk" {
 		args = []lua.LValue{a[0], L.NewFunction(func(L *lua.LState) int {
 			res = append(res, []interface{}{e.tok(L.Get(1)), e.tok(L.Get(2))})
 			return 0
